@@ -263,6 +263,8 @@ def expr_text(e, ctx=None):
                 "nlparen": "(%s\n       )", "dsp": "(%s  if  True  else  None)",
                 # parameters / comprehension variables named like template variables: local to the expression
                 "pyprefix": "python: %s", "pyprefix2": "python:%s",
+                # line breaks that mean something: inside a string literal, at the end of a comment
+                "nlstr": "(%s if '''x\ny''' == 'x\\ny' else None)", "nlcomment": "(%s # note\n    )",
                 "compx": "[x for x in (%s,)][0]", "genx": "list(x for x in (%s,))[0]", "lamdef": "(lambda y=%s: y)()",
                 "nestlam": "(lambda x: (lambda y, x=x: x)(x))(%s)", "lamkw": "(lambda *x, **y: x[0])(%s)"}[e["w"]] % inner
     if x == "attr":
@@ -635,6 +637,15 @@ def expected_translate_calls(log, c, p, vf, variant):
             # a message object offered for translation before it is converted to text
             calls.append(("<msg>", None, None, ev["d"] or None, ev["c"] or None, ev["t"] or None))
             continue
+        if ev["ev"] == "ctrans":
+            # tal:content with i18n:translate="": the value itself is the message id (before it is converted and escaped);
+            # the recording function notes text and message objects
+            v = ev["v"]
+            if v["t"] == "str":
+                calls.append((_val_text(v, vf, None), None, None, ev["d"] or None, ev["c"] or None, ev["t"] or None))
+            elif v["t"] == "obj" and v.get("kind") == "msg":
+                calls.append(("<msg>", None, None, ev["d"] or None, ev["c"] or None, ev["t"] or None))
+            continue
         if ev["ev"] == "atrans":
             # i18n:attributes: the attribute's text (static as written, computed converted and escaped) is the default and,
             # without an explicit id, the message id; an empty text without an explicit id is not offered
@@ -770,6 +781,8 @@ def _print_atoms(atoms, c, p, vf, objs=None, log=None, variant="identity"):
             t = _val_text(a["v"], vf, objs)
             if t is None:
                 continue
+            if a.get("tr") and a["v"]["t"] == "str":
+                t = tf_result(variant, t, None, None)
             segs.append(t if a["esc"] == "struct" else esc_text(t))
         elif k == "sep":
             it = p["items"][a["i"] - 1]
